@@ -154,7 +154,7 @@ KEYONLY_SKIPPED = [0]
 
 
 def parse(text):
-    R, T, D, X = [], [], [], []
+    R, T, D, X, Y = [], [], [], [], []
     cur = None
     for line in text.splitlines():
         t = line.split()
@@ -192,7 +192,11 @@ def parse(text):
             cur[t[0]].append(rec)
         elif t[0] == "X":
             X.append(line)
-    return R, T, D, X
+        elif t[0] == "Y":
+            p = [x.strip() for x in line.split("|")]
+            h = p[0].split()
+            Y.append({"ctx": h[1], "origin": h[2], "ms": p[1], "same": p[2] == "same=1", "translated_ext": p[3], "rebuilt_ext": p[4]})
+    return R, T, D, X, Y
 
 
 def sat_of(ext):
@@ -455,7 +459,7 @@ def run(rep, tier, seed, replay):
     p = vlib.sh([hbin, "ext", str(seed), str(nr), str(nt), str(nd)], timeout=3000)
     if p.returncode != 0:
         raise RuntimeError("ext engine failed: " + p.stderr[-2000:])
-    R, T, D, X = parse(p.stdout)
+    R, T, D, X, Y = parse(p.stdout)
     args = [seed, nr, nt, nd]
     for x in X:
         rep.violation("corpus", "a directed corpus entry is no longer accepted by the library: " + x, {"property": "C09", "line": x, "broken_tie": "ext engine corpus"}, False)
@@ -504,6 +508,14 @@ def run(rep, tier, seed, replay):
 
     # ---- oracle on the implementation's own outputs
     need_attr, direct, st = judge(D, T)
+    # a translated object must carry the figures of the script it now is: the same tree re-typed node by node
+    st["translated/compared"] = len(Y)
+    for y in Y:
+        if not y["same"]:
+            direct.append(("translate:stale-figures",
+                           "translate_pk result carries ext/type %s, the same tree built with from_ast has %s: %s [%s, %s]" % (
+                               y["translated_ext"], y["rebuilt_ext"], y["ms"], y["ctx"], y["origin"]),
+                           dict(y, failed_clause="translated.ext == from_ast-rebuilt.ext (figures describe the translated script)")))
     found_real = False
     attributed = attribute(need_attr)
     for a, comps, masks in attributed:
@@ -552,7 +564,7 @@ def run(rep, tier, seed, replay):
     if tie_breaks and not found_real:
         p2 = vlib.sh([hbin, "ext", str(seed + 1000003), "0", str(nt * 2), str(nd * 3)], timeout=3000)
         if p2.returncode == 0:
-            _, T2, D2, _ = parse(p2.stdout)
+            _, T2, D2, _, _ = parse(p2.stdout)
             na2, direct2, _ = judge(D2, T2)
             for a, comps, masks in attribute(na2):
                 for key in comps:
@@ -596,7 +608,7 @@ def run(rep, tier, seed, replay):
         "evaluations": len(rules) + n_tree + n_desc + n_plan + st["compared"],
         "distinct_nontrivial": st["compared"],
         "rule": "R: every public ExtData rule on seeded random plain data (profiles small / mixed-with-None / 2^57 / near usize::MAX; threshold k in {0,n,n+1,MAX,random}, n in 0..8); "
-                "T: type-directed generator, 4 contexts, depth 0..4, bases B/V/K/W + directed corpus + near-520-byte legacy scripts; "
+                "T: type-directed generator, 4 contexts, depth 0..4, bases B/V/K/W + directed corpus + near-520-byte legacy scripts + TRANSLATED legacy/bare scripts (compressed-keyed and name-keyed sources translated with translate_pk to uncompressed / mixed keys; also as sh/bare descriptors in D); "
                 "D: generator of the sat engine (wsh, sh(wsh), sh, bare, tr 1-3 leaves) + directed corpus, 1-4 lock environments, all key subsets (<=4 keys) or 16 random, 2-3 preimage subsets, both modes, ECDSA signatures ground to the maximal 72 bytes; non-trivial = a produced satisfaction/plan whose measured sizes were compared",
         "rule_cases": len(rules), "rule_cases_panicking": panics, "tree_cases": n_tree, "descriptor_weight_cases": n_desc, "plan_cases": n_plan,
         "theorem_class_coverage": {"scripts": int(cov.group(1)), "ext_safe_as_written": int(cov.group(2)), "ext_safe_pre_fix_rules": int(cov.group(3))} if cov else None,
